@@ -445,3 +445,58 @@ Definition matching_pass (g : graph) : graph :=
 Definition build_file (path src : bytes) (t : cst) : result graph :=
   do g <- visit src path None t None empty_graph;
   Ok (matching_pass g).
+
+(* ---------- specification-side helpers (used by theorems and by the harness oracles) ---------- *)
+(* the entity kinds one CST node stands for, read off its type alone *)
+Definition kinds_of (src : bytes) (n : cst) : list bytes :=
+  let ty := c_ty n in
+  if bytes_eqb ty "block" then ["BlockStmt"]
+  else if bytes_eqb ty "return_statement" then ["ReturnStmt"]
+  else if bytes_eqb ty "assert_statement" then ["AssertStmt"]
+  else if bytes_eqb ty "yield_statement" then ["YieldStmt"]
+  else if bytes_eqb ty "break_statement" then ["BreakStmt"]
+  else if bytes_eqb ty "continue_statement" then ["ContinueStmt"]
+  else if bytes_eqb ty "if_statement" then ["IfStmt"]
+  else if bytes_eqb ty "while_statement" then ["WhileStmt"]
+  else if bytes_eqb ty "do_statement" then ["DoStmt"]
+  else if bytes_eqb ty "for_statement" then ["ForStmt"]
+  else if bytes_eqb ty "binary_expression" then
+    match child_by_field n "operator" with
+    | Some o => match lookup_binop (c_ty o) with Some (_, t) => [t] | None => [] end ++ ["binary_expression"]
+    | None => []
+    end
+  else if bytes_eqb ty "method_declaration" then ["method_declaration"]
+  else if bytes_eqb ty "method_invocation" then ["method_invocation"]
+  else if bytes_eqb ty "class_declaration" then ["class_declaration"]
+  else if bytes_eqb ty "block_comment" then (if has_prefix "/*" (content src n) then ["block_comment"] else [])
+  else if bytes_eqb ty "local_variable_declaration" || bytes_eqb ty "field_declaration" then ["variable_declaration"]
+  else if bytes_eqb ty "object_creation_expression" then ["ClassInstanceExpr"]
+  else [].
+
+(* the facts about one node that the Go code relies on without checking (nil dereferences otherwise) *)
+Definition node_shape_okb (n : cst) : bool :=
+  let ty := c_ty n in
+  if bytes_eqb ty "assert_statement" || bytes_eqb ty "yield_statement" then
+    match child n 1 with Some _ => true | None => false end
+  else if bytes_eqb ty "binary_expression" then
+    match child_by_field n "left", child_by_field n "right", child_by_field n "operator" with
+    | Some _, Some _, Some _ => true | _, _, _ => false end
+  else if bytes_eqb ty "class_declaration" then
+    match child_by_field n "name" with Some _ => true | None => false end
+  else if bytes_eqb ty "method_invocation" then
+    match child_by_field n "argument_list" with
+    | Some args => forallb (fun a => match child a 0 with Some _ => true | None => false end) (c_kids args)
+    | None => true end
+  else true.
+
+Definition shape_okb (t : cst) : bool := forallb node_shape_okb (cst_nodes t).
+
+(* a count of the work the builder does on one file: one visit per tree node, the bytes copied out
+   of the source for snippets and attributes (a bounded number of copies of a node's own text and
+   of each child's text), and the declaration/call matching pass (run once) *)
+Definition span (n : cst) : nat := N.to_nat (c_eb n - c_sb n).
+Definition node_work (n : cst) : nat := 4 * span n + 4 * list_sum (List.map span (c_kids n)).
+Definition work (t : cst) (g : graph) : nat :=
+  cst_size t + list_sum (List.map node_work (cst_nodes t))
+  + length (filter (fun '(_, m) => bytes_eqb (n_type m) "method_declaration") (g_nodes g))
+    * length (g_nodes g).
